@@ -144,7 +144,9 @@ def gen_cfg(rng, i):
     method = ['Bandlimited Angular Spectrum', 'Angular Spectrum', 'Transfer Function Fresnel', 'Impulse Response Fresnel'][i % 4]
     lam = rng.uniform(0.4, 0.7)
     z = rng.uniform(2, 20)
-    return {'method': method, 'ptype': ['forward', 'back and forth'][(i // 2) % 2], 'lams': [lam, lam * rng.uniform(1.1, 1.4)], 'dx': lam * rng.uniform(0.8, 4),
+    lam2 = lam * rng.uniform(1.1, 1.4)
+    # the pitch respects dx >= lambda / sqrt 2 for BOTH wavelengths (otherwise the angular-spectrum kernels have NaN pixels)
+    return {'method': method, 'ptype': ['forward', 'back and forth'][(i // 2) % 2], 'lams': [lam, lam2], 'dx': lam2 * rng.uniform(0.75, 4),
             'zs': [z, z + rng.uniform(1, 5)], 'zm': rng.uniform(5, 30), 'aperture': ['none', 'grey', 'binary', 'complex'][(i // 3) % 4],
             'aseed': rng.randrange(10 ** 6), 'frames': 1 + (i % 3 == 2), 'explicit_distances': i % 5 == 0}
 
